@@ -275,7 +275,9 @@ class GaussianBackend(BaseGaussian):
         if modes is None:
             modes = list(range(len(self.get_modes())))
 
-        listmodes = list(concatenate((2 * array(modes), 2 * array(modes) + 1)))
+        # rows of deleted modes stay in the circuit: address the active modes
+        rows = array(self.get_modes())[modes]
+        listmodes = list(concatenate((2 * rows, 2 * rows + 1)))
         covmat = empty((2 * len(modes), 2 * len(modes)))
         means = r[listmodes]
 
